@@ -172,6 +172,8 @@ func init() {
 			}
 		})
 
+		c.Group("C01/generate-range", "generateTSO advances the logical part by exactly the requested count and returns the value read after the advance", func() { ruleGenerateReturnsHighest(c) })
+		c.Group("C01/sync-above-window", "(shared with C02) a new leader starts at least the guard above the loaded window", func() { ruleSyncAboveWindow(c) })
 		c.Group("C01/getTS", "every successful return of getTS is dominated by logical < maxLogical and by a leadership check made after the timestamp was generated; count==0 is rejected", func() { ruleGetTS(c) })
 
 		c.Group("C01/global-generate", "a global timestamp is returned only after SyncMaxTS succeeded, the estimate passed the overflow pre-check, and leadership was re-checked after the last write to any allocator", func() { ruleGlobalGenerate(c) })
@@ -510,5 +512,97 @@ func ruleRequestRecycling(c *Ctx) {
 	}
 	if n == 0 {
 		c.Undec(rule, "tsoReqPool.Put sites", "at least 1", "", "0")
+	}
+}
+
+// ruleGenerateReturnsHighest: a request for count values owns the count
+// consecutive values *ending* at the returned one. generateTSO therefore
+// advances the logical part by exactly its count argument and returns the
+// value read after that advance; returning the value from before the advance
+// (or advancing by something else) makes consecutive ranges overlap.
+func ruleGenerateReturnsHighest(c *Ctx) {
+	P := c.P
+	const tso = "server/tso"
+	rule := c.Prop + "/generate-range"
+	fn := P.Method(tso, "timestampOracle", "generateTSO")
+	logical := P.Field(tso, "tsoObject", "logical")
+	c.saw(fnName(fn))
+	var count ssa.Value
+	for _, p := range fn.Params {
+		if p.Name() == "count" {
+			count = p
+		}
+	}
+	if count == nil && len(fn.Params) >= 2 {
+		count = fn.Params[1]
+	}
+	var adv *ssa.Store
+	n := 0
+	for _, st := range storesToField(fn, logical) {
+		n++
+		if bo, ok := strip(st.Val).(*ssa.BinOp); ok && bo.Op == token.ADD {
+			x, y := strip(bo.X), strip(bo.Y)
+			if (isLoadOf(x, logical) && y == count) || (isLoadOf(y, logical) && x == count) {
+				adv = st
+			}
+		}
+	}
+	c.Check(adv != nil && n == 1, rule, "advance of logical in "+fnName(fn), "the logical part is advanced once, by exactly the requested count", P.pos(fn.Pos()), fmt.Sprintf("%d stores to logical, advance by count found: %v", n, adv != nil))
+	if adv == nil {
+		return
+	}
+	after := func(v ssa.Value) bool {
+		v = strip(v)
+		if v == strip(adv.Val) {
+			return true
+		}
+		if !isLoadOf(v, logical) {
+			return false
+		}
+		ins, ok := v.(ssa.Instruction)
+		if !ok {
+			return false
+		}
+		if ins.Block() == adv.Block() {
+			for _, x := range ins.Block().Instrs {
+				if x == ssa.Instruction(adv) {
+					return true
+				}
+				if x == ins {
+					return false
+				}
+			}
+		}
+		return adv.Block().Dominates(ins.Block())
+	}
+	before := func(v ssa.Value) bool { return isLoadOf(v, logical) && !after(v) && strip(v) != strip(adv.Val.(*ssa.BinOp).X) && strip(v) != strip(adv.Val.(*ssa.BinOp).Y) }
+	k := 0
+	seenAlt := map[ssa.Value]bool{}
+	for _, b := range fn.Blocks {
+		r, ok := b.Instrs[len(b.Instrs)-1].(*ssa.Return)
+		if !ok || len(r.Results) < 2 {
+			continue
+		}
+		for _, alt := range valueAlternatives(retVal(r, 1), 4) {
+			if isConstInt(0)(alt) || seenAlt[strip(alt)] {
+				continue // uninitialised oracle
+			}
+			seenAlt[strip(alt)] = true
+			k++
+			okAfter := derivesFrom(alt, after, 6)
+			// the operand of the advance itself is a pre-advance load; any other pre-advance load feeding the result is wrong
+			usesBefore := derivesFrom(alt, func(v ssa.Value) bool {
+				if !isLoadOf(v, logical) || after(v) {
+					return false
+				}
+				// reached otherwise than through the advance's own addition?
+				return !derivesFrom(adv.Val, same(v), 2) || strip(alt) == strip(v)
+			}, 6) && !okAfter
+			_ = before
+			c.Check(okAfter && !usesBefore, rule, fmt.Sprintf("returned logical #%d of %s", k, fnName(fn)), "the value read after the advance (the highest value of the granted range)", P.instrPos(r), "")
+		}
+	}
+	if k == 0 {
+		c.Undec(rule, "returns of "+fnName(fn), "a returned logical value", "", "")
 	}
 }
